@@ -5,6 +5,7 @@ import FancyModel.Spec.Domain
 import FancyModel.Driver.Wire
 import FancyModel.Model.VMBytesCheck
 import FancyModel.Spec.Stage4
+import FancyModel.Spec.Stage5
 /-!
 # Driver glue for the engine operations (`pat`, `facts`, `prog`, `caps`). Tie code, not model.
 -/
@@ -153,7 +154,12 @@ def doPat (sp : List Char) (fields : List String) : Cur × String :=
           let s4 := match b.kind with
             | .wrap => false
             | .fancy _ => s4ok (fun g => backrefs.contains g) b.raw && wellShaped b.raw && noBareEndZ b.raw
-          s!"{kind} {b.nGroups} ws={b01 (wellShaped b.raw)} closed={b01 (closed b.raw)} nel={b01 (noEmptyLoop b.raw)} ncl={b01 (noCondLeak b.raw)} mod={b01 modelled} s2={b01 s2} s3={b01 s3} s4={b01 s4}"
+          -- … and for stage S5 (`C01_vm_correct_s5`, Proofs/C01h.lean: `s5Stage` = S4 or `s5New`): such runs anywhere
+          -- outside look-behind bodies, when no back-reference / group test in the pattern names one of their groups
+          let s5 := s4 || (match b.kind with
+            | .wrap => false
+            | .fancy _ => s5Raw (fun g => backrefs.contains g) b.raw && wellShaped b.raw && noBareEndZ b.raw)
+          s!"{kind} {b.nGroups} ws={b01 (wellShaped b.raw)} closed={b01 (closed b.raw)} nel={b01 (noEmptyLoop b.raw)} ncl={b01 (noCondLeak b.raw)} mod={b01 modelled} s2={b01 s2} s3={b01 s3} s4={b01 s4} s5={b01 s5}"
       (cur, ans)
     | _ => (default, "bad-tree")
   | _ => (default, "bad-op")
